@@ -176,7 +176,7 @@ func (d *driver) planExh(n, cap int) {
 	}
 }
 
-var faultOps = []Fault{{"exists", 0, "before"}, {"fetch", 0, "before"}, {"fetch", 0, "mid"}, {"push", 0, "before"}, {"push", 0, "after"}}
+var faultOps = []Fault{{"exists", 0, "before"}, {"fetch", 0, "before"}, {"fetch", 0, "mid"}, {"fetch", 0, "long"}, {"push", 0, "before"}, {"push", 0, "after"}}
 var cbOps = []string{"pre", "post", "skipped"}
 
 // planFaults: every single fault (operation, node, phase) and every single
